@@ -18,8 +18,14 @@ class EmacsState:
         self.macro: list[KeyPress] | None = []
         self.current_recording: list[KeyPress] | None = None
 
+        # Whether the most recent `kill-word` command put text on the
+        # clipboard. (A repeated `kill-word` appends to the previous kill only
+        # if there was one.)
+        self.last_kill_word_killed = False
+
     def reset(self) -> None:
         self.current_recording = None
+        self.last_kill_word_killed = False
 
     @property
     def is_recording(self) -> bool:
